@@ -234,6 +234,9 @@ namespace verif
 
     Verdict run_case(const uint8_t* data, size_t size, Report& rep)
     {
+        GroupingLocale loc(GroupingLocale::wanted(data, size));
+        if (loc.on)
+            rep.label("global-locale-groups-digits");
         Choices c(data, size);
         unsigned mode = c.pick(8);
         if (mode <= 2)
